@@ -152,6 +152,8 @@ struct Conn {
     pub refused: bool,
     connect_waker: Option<Waker>,
     pub accepted_at: Option<Ns>,
+    /// executor step at which the server's `accept` took this connection
+    pub accepted_step: Option<u64>,
     pub server_reads: u64,
     pub server_read_pending_since: Option<Ns>,
 }
@@ -438,6 +440,7 @@ impl World {
         if let Some(c) = l.backlog.pop_front() {
             self.conns[c].accepted = true;
             self.conns[c].accepted_at = Some(now);
+            self.conns[c].accepted_step = Some(self.steps);
             self.effects += 1;
             self.ev("accept", c as u64, 0);
             if let Some(w) = self.conns[c].connect_waker.take() {
@@ -461,6 +464,7 @@ impl World {
             refused: false,
             connect_waker: None,
             accepted_at: None,
+            accepted_step: None,
             server_reads: 0,
             server_read_pending_since: None,
         });
@@ -480,6 +484,9 @@ impl World {
     }
     pub fn conn_accepted(&self, c: usize) -> bool {
         self.conns[c].accepted
+    }
+    pub fn conn_accepted_step(&self, c: usize) -> Option<u64> {
+        self.conns[c].accepted_step
     }
     pub fn conn_accepted_at(&self, c: usize) -> Option<Ns> {
         self.conns[c].accepted_at
